@@ -6,7 +6,9 @@ from ..schema import protoparse as PP, wire as W
 # "artifacts written by earlier releases remain readable" also needs the layer media types to stay the
 # published ones (ARTIFACT.md) and the layer bytes to be exactly the message's encoding, read back by the
 # plain decoder with no extra rejection (seeds C07-4, C07-7, C07-8): decided by the C20.types / C20.kinds rules
-RELIES_ON = {'C20': ['C20.types', 'C20.kinds']}
+# a field kept only for messages of earlier releases (SampleSet.feasible_unrelaxed, tag 6) is readable only while
+# its accessor still falls back to it (seed C07-10): decided by the C15.legacy table
+RELIES_ON = {'C20': ['C20.types', 'C20.kinds'], 'C15': ['C15.legacy']}
 RELEASE_TWIN = False      # derive output is profile independent; the schema tables are not MIR-shape rules
 
 
